@@ -37,10 +37,10 @@ CHECKS = {
          "Every workload word of length 3|4 (every fault position) and every shorter word (fault in the last operation) x 4|6 configurations; one fault per run at each individual create / write / fsync / unlink (EIO; ENOSPC for writes and creates; short writes as a benign deviation that must change nothing). The failed operation must return Err, nothing may panic or abort, every other operation must succeed, and reads in the running process and after a restart must equal the map model with the failed operation applied or not.",
          "One transient fault per run; faulted runs execute in forked children so that a process abort is an observation.", "DESIGN.md §5 E2, §6 C20"),
  "C04": ("e3 sched", "model_checking", "stateless model checking of the implementation: preemption-bounded exhaustive DFS over schedules of real threads under a baton scheduler, brute-force linearizability oracle",
-         "23 harnesses of 2-3 real threads with 1-2 Handle operations each on one real store (forced key collisions; entries below and above the 8 KiB write buffer; rollover inside a put; merges with and without rollover; one and two pooled readers; reader cache 0). Every schedule with <= 2 (quick) / <= 3 (thorough) preemptions — one more for the two-thread harnesses — is executed; scheduling points are every interposed system call on a store file and every hook point before an access to shared state. Each execution must finish without panic, error, deadlock or livelock, its call/return history must be linearizable against the map model, the final reads must agree with a valid linearization and every reader must be back in the pool.",
+         "23 harnesses of 2-3 real threads with 1-2 Handle operations each on one real store (forced key collisions; entries below and above the 8 KiB write buffer; rollover inside a put; merges with and without rollover; one and two pooled readers; reader cache 0). Every schedule with <= 2 (quick) / <= 3 (thorough) preemptions — one more for the two-thread harnesses — is executed; scheduling points are every interposed system call on a store file and every hook point before an access to shared state. A second, sequential pass decides the last sentence of the property for reads that FAIL: in every state of every word of length <= 3|4 over {set, big set, overwrite, del, merge, reopen} x file sizes x reader cache {0,1,256} x pool depth {1,2} a get is repeated with each of its read-path calls (open for reading, mmap) failing once; afterwards the pool must hold every reader and every key must read as the model says. Each execution must finish without panic, error, deadlock or livelock, its call/return history must be linearizable against the map model, the final reads must agree with a valid linearization and every reader must be back in the pool.",
          "Sequentially consistent at point granularity; lock-free primitives (parking_lot, dashmap, crossbeam) trusted; conservative shadow-lock rule for merge vs. readers; 2-3 threads, <= 2 operations each.", "DESIGN.md §5 E3, §6 C04"),
  "C07": ("e4 resp", "model_checking", "bounded-exhaustive input enumeration against the real Frame::check / Frame::parse with an independent exact decoder as oracle; abort-prone inputs evaluated in forked children",
-         "ALL byte strings of length <= 6 (quick) / <= 7 (thorough) over 12 symbols (+ - : $ * 0 1 9 CR LF a 0xFF), a number grid (integer / bulk length / array length carriers, top level and nested after fillers of 0..40 bytes so the digits cross every buffer offset, three signs, 1..21 digits, values around i64::MIN/MAX, 10^19, 2^64), every truncation point of every grid message and request, nesting depths up to 10^6 and declared lengths up to 2^64-1 on 8 MiB and 2 MiB stacks in forked children. No panic / abort; accepted frames and lengths equal the independent decoder's; check length = parse length; no strict prefix accepted as the same frame.",
+         "ALL byte strings of length <= 6 (quick) / <= 7 (thorough) over 12 symbols (+ - : $ * 0 1 9 CR LF a 0xFF), a number grid (integer / bulk length / array length carriers, top level and nested after fillers of 0..40 bytes so the digits cross every buffer offset, three signs, 1..21 digits, values around i64::MIN/MAX, 10^19, 2^64), every truncation point of every grid message and request, nesting depths up to 10^6 and declared lengths up to 2^64-1 on 8 MiB and 2 MiB stacks in forked children. No panic / abort; accepted frames and lengths equal the independent decoder's; check and parse agree on the length both on the accepted bytes alone and on the same (longer) buffer, as the connection uses them; check length = parse length; no strict prefix accepted as the same frame.",
          "Exhaustive only up to the stated string length / grids; bytes outside the 12-symbol alphabet are represented by 'a' and 0xFF.", "DESIGN.md §5 E4, §6 C07"),
  "C08": ("e4 resp", "model_checking", "bounded-exhaustive frames x sequences x segmentations x Pending/EOF scripts through the real Connection over a scripted stream under a hand-written executor",
          "Frame sequences (all kinds, i64 extremes, bulk strings with CR/LF/NUL and 8192/8193 bytes, arrays up to length 3|4, sequences up to 3|4 frames) are encoded by the real write_frame (bytes compared with an independent encoder) and decoded by the real read_frame under every segmentation (all 2^(n-1) for n <= 14|17 bytes; whole, byte-wise, all single cuts, pairs near the ends otherwise), every placement of <= 2 Pending answers, and every strict prefix followed by silence (must stay incomplete) or EOF (must be an error unless at a frame boundary).",
@@ -49,19 +49,19 @@ CHECKS = {
          "Request words up to depth 3|4 over 12 requests (SET/GET/DEL, multi-key DEL with repeats and misses, values with CR LF NUL and empty, a 2-byte UTF-8 key) plus words with a 9 000-byte value; each word's byte stream is delivered to a fresh real server whole, in lock-step, one byte per recv, with every single cut and (short words) every pair of cuts, and with every single cut where the client first WAITS for all replies of the requests completed before the cut and only then sends the rest; the interposed recv hands over exactly the scripted segments. The complete reply stream up to end-of-stream must equal the reference encoding of the map model's answers; the store read through the handle must equal the model.",
          "Current-thread runtime; tokio primitives trusted; real loopback TCP.", "DESIGN.md §5 E5, §6 C06"),
  "C10": ("e5 net", "model_checking", "bounded-exhaustive hostile byte streams x endings x position relative to control traffic against the real server; liveness of the server thread and correctness of control / fresh connections as oracle",
-         "ALL byte strings of length <= 4|5 over 12 symbols, every truncation and single-byte substitution of SET/GET/DEL requests, unknown/lower-case commands, every arity 0..4, every non-bulk frame type in every argument position, non-UTF-8 keys, nesting up to 300 000, declared lengths up to 2^64-1, 70 000 NULs, half of a 70 000-byte value; each with endings close / half-close / leave open. The server thread must stay alive (a process abort kills the worker and is reported with the case in progress), the control connection and a fresh connection must get the model's answers, the hostile connection must see exactly the replies of its well-formed prefix, the store may differ from the model only by that prefix, and run() must still return on shutdown.",
+         "ALL byte strings of length <= 4|5 over 12 symbols, every truncation and single-byte substitution of SET/GET/DEL requests, unknown/lower-case commands, every near-miss spelling of SET/GET/DEL (prefixes, one byte prepended / appended / replaced, all case variants, Redis commands that start with them such as SETNX or DELETE) with argument lists the real commands accept, every arity 0..4, every non-bulk frame type in every argument position, non-UTF-8 keys, nesting up to 300 000, declared lengths up to 2^64-1, 70 000 NULs, half of a 70 000-byte value; each with endings close / half-close / leave open. The server thread must stay alive (a process abort kills the worker and is reported with the case in progress), the control connection and a fresh connection must get the model's answers, the hostile connection must see exactly the replies of its well-formed prefix, the store may differ from the model only by that prefix, and run() must still return on shutdown.",
          "The reference command interpreter mirrors the parser's documented leniency; in-process server (an abort is attributed through the progress file).", "DESIGN.md §5 E5, §6 C10"),
  "C11": ("e5 net", "model_checking", "exhaustive interleavings of gated store-entry / store-return events of concurrent clients on the real server; linearizability + exact per-call oracle",
-         "2 clients x programs of 1-2 commands over 5 commands, 3 clients x 1 command (thorough: 3 clients x <= 2 commands), and a variant with rollover at every write and a merge after every store entry: every command is held by a KeyValueStorage wrapper before it enters the store and before it returns, and EVERY interleaving of those events is executed. Each reply must encode what its own store call returned; store-level and client-level histories must be linearizable against the map model; one-at-a-time schedules must match the model in entry order exactly; no reply is readable while its command is held; one reply per request.",
+         "2 clients x programs of 1-2 commands over 5 commands, 3 clients x 1 command (thorough: 3 clients x <= 2 commands), and a variant with rollover at every write and a merge after every store entry: every command is held by a KeyValueStorage wrapper before it enters the store and before it returns, and EVERY interleaving of those events is executed; in a further variant SET and DEL are held a third time INSIDE the store call, right before they queue for the writer lock (store hook), so that a look at the index and the update that follows it can be separated by whole operations of other clients. Each reply must encode what its own store call returned; store-level and client-level histories must be linearizable against the map model; one-at-a-time schedules must match the model in entry order exactly; no reply is readable while its command is held; one reply per request.",
          "Command granularity: what happens inside two overlapping store calls is C04's subject; tokio's multi-thread scheduler is not enumerated.", "DESIGN.md §5 E5, §6 C11"),
  "C15": ("e5 net", "model_checking", "explicit-state search over connection-event words on the real server with a reference model of the accept loop checked after every event",
          "max_connections N in {1, 2}; events: connect a client that sends GET / nothing / half a frame / malformed bytes / triggers a panic in its handler task / whose accept fails with ECONNABORTED (injected in the interposed accept4), or close the i-th open client; ALL words with up to 3|4 connections and length <= 6|8. After every event the served set must equal the FIFO accept model (served ones answered, waiting ones silent at quiescence, number of commands that reached the store equal to the model's); after every word N fresh connections are served concurrently, one more is not, and it is served once one of them closes.",
          "Quiescence = server thread parked in epoll_wait with nothing ready and no store call in flight, plus a stability window; negative observations can only miss.", "DESIGN.md §5 E5, §6 C15"),
  "C16": ("e5 net", "model_checking", "exhaustive connection-state x shutdown-moment x release-order enumeration on the real server",
-         "1 and 2 connections, each in one of: idle (0 or 1 commands done), every strict prefix of a request sent, command held before the store, command held after the store call, two pipelined requests with the first held, an 8 MiB reply stalled on a client that does not read; then the shutdown signal; then every order of the remaining release/resume events. run() must not return while a command is in flight and must return once everything is released; in-flight commands are answered completely and never torn; every client's stream parses as complete replies then end of stream; acknowledged commands are in the store; incomplete requests change nothing.",
+         "1 and 2 connections, each in one of: idle (0 or 1 commands done), every strict prefix of a request sent, command held before the store, command held after the store call, two pipelined requests with the first held, an 8 MiB reply stalled on a client that does not read, a client that never pauses (one command held, 16 requests on the wire, keeps 16 requests ahead of the replies it reads: the server must stop answering it within 2 000 requests); then the shutdown signal; then every order of the remaining release/resume events. run() must not return while a command is in flight and must return once everything is released; in-flight commands are answered completely and never torn; every client's stream parses as complete replies then end of stream; acknowledged commands are in the store; incomplete requests change nothing.",
          "A client that never resumes reading keeps run() waiting (the statement conditions termination on connections winding down).", "DESIGN.md §5 E5, §6 C16"),
  "C17": ("e6 vtime", "model_checking", "exhaustive enumeration of drop moments (worker asleep, every hook gate, every hook point inside a running background merge/sync) x worker configurations in virtual time, with a global system-call recorder",
-         "Worker configuration {trigger met, not met, merge never} x {no sync task, interval sync} x drop placed before tick 1..3 while the worker sleeps an hour (virtual) before its next timer, while it is held at each hook gate, and while a background merge or sync is held at EVERY hook point inside it. Relative to the moment the drop returned: every operation on a retained handle fails with 'closed', the old instance issues no mutating system call, the worker thread is gone within 2 s real time, the directory re-opens at once and reads as the map model immediately, after the old operation completed and after a further re-open; 2|20 open/close cycles leave thread and descriptor counts unchanged.",
+         "Worker configuration {trigger met, not met, merge never} x {no sync task, interval sync} x drop placed before tick 1..3 while the worker sleeps an hour (virtual) before its next timer, while it is held at each hook gate, and while a background merge or sync is held at EVERY hook point inside it; the sleeping-worker drops are repeated with every file-system call issued by the dropping thread failing (EIO). Relative to the moment the drop returned: every operation on a retained handle fails with 'closed', the old instance issues no mutating system call, the worker thread is gone within 2 s real time, the directory re-opens at once and reads as the map model immediately, after the old operation completed and after a further re-open; 2|20 open/close cycles leave thread and descriptor counts unchanged.",
          "Gate positions are hook points (before each lock acquisition / loop iteration), not every instruction; 'promptly' = 2 s real time.", "DESIGN.md §5 E6, §6 C17"),
  "C18": ("e6 vtime", "model_checking", "exhaustive configuration grid of the background worker executed in virtual time (interposed clock_gettime / epoll_wait), worker held at every tick, reference trigger predicate",
          "Policy {never, always, window in, window out} x trigger crossing {none, dead bytes, fragmentation, both} placed at tick k in 1..3 x check interval {1 ms .. 1 h} x jitter {0, 0.3, 1} x sync {none, always, interval}, horizon 5|10 ticks (1 413 | ~1 900 configurations): at every tick the spacing lies in interval*(1 +- jitter), can_merge() equals a reference predicate on the counters, a merge starts at exactly the first tick where predicate and policy allow and at no other, never under 'never' / outside the window; interval sync keeps consecutive fsyncs at most one interval apart and stops after the drop.",
